@@ -1047,10 +1047,11 @@ static void c08_one(const c08cfg_t *c, const char **algs)
 		vf_violation("import|no-item", "no single item for %.300s", doc);
 	else if (jwks_item_error(it)) {
 		vf_obs(3);
-		if (c->enc_i == 0)
-			vf_violation("import|well-formed-jwk-refused", "%s %s refused: %s: %.300s", c->vk ? c->vk->name : "oct", c->priv ? "private" : "public", jwks_item_error_msg(it), doc);
-		else
+		/* the quantifier names minimal-length and zero-padded integer encodings explicitly: they must import too */
+		if (c->enc_i != 0)
 			c08_noncanon_refused++;
+		vf_violation(c->enc_i == 0 ? "import|well-formed-jwk-refused" : c->enc_i == 3 ? "import|minimal-length-encoding-refused" : "import|zero-padded-encoding-refused",
+			     "%s %s (integer encoding variant %d) refused: %s: %.300s", c->vk ? c->vk->name : "oct", c->priv ? "private" : "public", c->enc_i, jwks_item_error_msg(it), doc);
 	} else {
 		vf_obs(1);
 		c08_compare(c, j, it, doc, algs);
